@@ -192,3 +192,8 @@ class OptimizeResult(dict):
         if key not in self:
             self[key] = default
         return self[key]
+
+    def __ior__(self, other):
+        # `res |= {...}` goes through the same checks as update()
+        self.update(other)
+        return self
